@@ -951,8 +951,379 @@ func genMaze(rng *rand.Rand, ft feat) *Prog {
 }
 
 // ---------------------------------------------------------------------------
+// stack boundary: every opcode the real table defines and whose Ethereum stack
+// arity is known, offered with exactly (required-1), (required), and — at the
+// limit — (1024 - net growth) and one more item on the stack.
 
-func families(r *mon.Run, cfgName string, ft feat) []family {
+func edgeCases(defined [256]bool) []*Prog {
+	var ps []*Prog
+	for o := 0; o < 256; o++ {
+		op := byte(o)
+		known, pops, push := evmref.Spec(op)
+		if !known || !defined[o] {
+			continue
+		}
+		var depths []int
+		if pops >= 1 {
+			depths = append(depths, pops-1)
+		}
+		depths = append(depths, pops)
+		if push > pops {
+			depths = append(depths, 1024-(push-pops), 1024-(push-pops)+1)
+		} else {
+			depths = append(depths, 1023, 1024)
+		}
+		for _, d := range depths {
+			nf, na := 4, 3
+			if d > 1000 { // the limit itself: more ways of getting there and of going on
+				nf, na = 8, 4
+			}
+			for fill := 0; fill < nf; fill++ {
+				for after := 0; after < na; after++ {
+					var b []byte
+					switch {
+					case fill == 0 && d <= 24:
+						for i := 0; i < d; i++ {
+							b = append(b, 0x60, 0x00)
+						}
+					case fill == 0:
+						for i := 0; i < d; i++ {
+							b = append(b, 0x59) // MSIZE of an untouched memory: zero
+						}
+					case fill == 1:
+						for i := 0; i < d; i++ {
+							b = append(b, 0x58)
+						}
+					case fill == 2:
+						for i := 0; i < d; i++ {
+							b = append(b, 0x36)
+						}
+					case fill == 3:
+						if d > 0 {
+							b = append(b, 0x59)
+						}
+						for i := 1; i < d; i++ {
+							b = append(b, 0x80)
+						}
+					case fill == 4:
+						for i := 0; i < d; i++ {
+							b = append(b, 0x38)
+						}
+					case fill == 5:
+						for i := 0; i < d; i++ {
+							b = append(b, []byte{0x58, 0x59, 0x36}[i%3])
+						}
+					case fill == 6:
+						for i := 0; i < d; i++ {
+							b = append(b, 0x60, byte(i))
+						}
+					default: // 16 pushes, then DUP16 all the way
+						for i := 0; i < d && i < 16; i++ {
+							b = append(b, 0x60, byte(0xa0+i))
+						}
+						for i := 16; i < d; i++ {
+							b = append(b, 0x8f)
+						}
+					}
+					b = append(b, op)
+					if op >= 0x60 && op <= 0x7f {
+						for i := 0; i < int(op-0x5f); i++ {
+							b = append(b, byte(i+1))
+						}
+					}
+					switch after {
+					case 1:
+						b = append(b, 0x5b)
+					case 2:
+						b = append(b, 0x50)
+					case 3:
+						b = append(b, 0x5b, 0x5b, 0x50)
+					}
+					ps = append(ps, &Prog{Op: evmref.Name(op), Body: b, Data: []byte{1, 2, 3}, Tail: "return", Edge: true, Depth: d})
+				}
+			}
+		}
+	}
+	return ps
+}
+
+// ---------------------------------------------------------------------------
+// several hash-less initcodes inside one call tree
+
+// initSpec describes an initcode: [create child first] header-jump, a region
+// of JUMPDESTs / PUSH data, a landing pad, SSTORE of a marker, [create child],
+// an ending, [child initcode as data].
+type initSpec struct {
+	jumpi      int // 0 JUMP, 1 JUMPI taken, 2 JUMPI not taken
+	region     []byte
+	target     int // offset in the region; -1 = the landing pad behind it
+	marker     byte
+	ending     int // 0 RETURN 3 bytes of code, 1 REVERT, 2 STOP (empty code), 3 INVALID
+	child      *initSpec
+	childFirst bool
+}
+
+const createSeqLen = 20
+
+// createSeq: CODECOPY the blob at [off, off+n) of the running code to memory
+// 0x40, CREATE it, SSTORE the result in slot 2.
+func createSeq(off, n int) []byte {
+	return []byte{0x61, byte(n >> 8), byte(n), 0x61, byte(off >> 8), byte(off), 0x60, 0x40, 0x39,
+		0x61, byte(n >> 8), byte(n), 0x60, 0x40, 0x60, 0x00, 0xf0, 0x60, 0x02, 0x55}
+}
+
+func (s *initSpec) build() []byte {
+	var blob []byte
+	if s.child != nil {
+		blob = s.child.build()
+	}
+	hdr := 4
+	if s.jumpi != 0 {
+		hdr = 6
+	}
+	pre := 0
+	if s.child != nil && s.childFirst {
+		pre = createSeqLen
+	}
+	endings := [][]byte{{0x60, s.marker, 0x60, 0x00, 0x53, 0x60, 0x03, 0x60, 0x00, 0xf3}, {0x60, 0x00, 0x60, 0x00, 0xfd}, {0x00}, {0xfe}}
+	end := endings[s.ending]
+	total := pre + hdr + len(s.region) + 1 + 5 + len(end)
+	if s.child != nil && !s.childFirst {
+		total += createSeqLen
+	}
+	var b []byte
+	if pre > 0 {
+		b = append(b, createSeq(total, len(blob))...)
+	}
+	t := pre + hdr + s.target
+	if s.target < 0 {
+		t = pre + hdr + len(s.region)
+	}
+	switch s.jumpi {
+	case 1:
+		b = append(b, 0x60, 0x01)
+	case 2:
+		b = append(b, 0x60, 0x00)
+	}
+	b = append(b, 0x61, byte(t>>8), byte(t))
+	if s.jumpi != 0 {
+		b = append(b, 0x57)
+	} else {
+		b = append(b, 0x56)
+	}
+	b = append(b, s.region...)
+	b = append(b, 0x5b, 0x60, s.marker, 0x60, 0x01, 0x55)
+	if s.child != nil && !s.childFirst {
+		b = append(b, createSeq(total, len(blob))...)
+	}
+	b = append(b, end...)
+	if len(b) != total {
+		panic("initSpec.build: length bookkeeping")
+	}
+	return append(b, blob...)
+}
+
+// genRegion: whole units only (a JUMPDEST byte, a one-byte pusher, or PUSHn
+// with data rich in 0x5b), so the byte after the region is an instruction.
+func genRegion(rng *rand.Rand, n int) []byte {
+	var reg []byte
+	for len(reg) < n {
+		if rng.Intn(2) == 0 {
+			w := 1 + rng.Intn(32)
+			if rng.Intn(3) == 0 {
+				w = 1 + rng.Intn(4)
+			}
+			reg = append(reg, byte(0x5f+w))
+			for i := 0; i < w; i++ {
+				if rng.Intn(5) < 3 {
+					reg = append(reg, 0x5b)
+				} else {
+					reg = append(reg, byte(rng.Intn(256)))
+				}
+			}
+		} else {
+			reg = append(reg, []byte{0x5b, 0x5b, 0x5b, 0x58, 0x59}[rng.Intn(5)])
+		}
+	}
+	return reg
+}
+
+// pickTarget prefers bytes that look like JUMPDESTs (genuine or push data).
+func pickTarget(rng *rand.Rand, reg []byte) int {
+	if rng.Intn(8) == 0 {
+		return -1
+	}
+	var cand []int
+	for i, c := range reg {
+		if c == 0x5b {
+			cand = append(cand, i)
+		}
+	}
+	if len(cand) == 0 || rng.Intn(12) == 0 {
+		return rng.Intn(len(reg) + 1)
+	}
+	return cand[rng.Intn(len(cand))]
+}
+
+func genInit(rng *rand.Rand, level int) *initSpec {
+	n := 4 + rng.Intn(60)
+	if rng.Intn(4) == 0 {
+		n = 4 + rng.Intn(200)
+	}
+	s := &initSpec{region: genRegion(rng, n), marker: byte(1 + rng.Intn(250))}
+	s.target = pickTarget(rng, s.region)
+	switch x := rng.Intn(10); {
+	case x < 7:
+	case x < 9:
+		s.jumpi = 1
+	default:
+		s.jumpi = 2
+	}
+	switch x := rng.Intn(20); {
+	case x < 16:
+	case x < 17:
+		s.ending = 1
+	case x < 18:
+		s.ending = 2
+	default:
+		s.ending = 3
+	}
+	if level < 3 && rng.Intn(3) == 0 {
+		s.child = genInit(rng, level+1)
+		s.childFirst = rng.Intn(2) == 0
+	}
+	return s
+}
+
+// createProg: a program (called contract, or the initcode of a top-level
+// creation) that optionally jumps through a region of its own and then CREATEs
+// the given initcodes one after the other; the addresses stay on the stack.
+func createProg(top *initSpec, inits []*initSpec, mode string, tail string) *Prog {
+	a := &asm{}
+	if top != nil {
+		t := 4 + top.target
+		if top.target < 0 {
+			t = 4 + len(top.region)
+		}
+		a.op(0x61, byte(t>>8), byte(t), 0x56)
+		a.op(top.region...)
+		a.op(0x5b)
+	}
+	var blob []byte
+	for _, s := range inits {
+		code := s.build()
+		n := len(code)
+		a.op(0x61, byte(n>>8), byte(n))
+		a.pushLabel(labelCodeEnd, len(blob))
+		a.op(0x60, 0x00, 0x39)
+		a.op(0x61, byte(n>>8), byte(n), 0x60, 0x00, 0x60, 0x00, 0xf0)
+		blob = append(blob, code...)
+	}
+	return &Prog{Body: a.finish(), Tail: tail, Mode: mode, Blob: blob, HiGas: true}
+}
+
+func fill5b(n int) []byte {
+	b := make([]byte, n)
+	for i := range b {
+		b[i] = 0x5b
+	}
+	return b
+}
+
+// dataRegion: j JUMPDESTs, then PUSH32 units whose data is all 0x5b, n bytes in all.
+func dataRegion(j, n int) []byte {
+	r := fill5b(j)
+	for len(r) < n {
+		r = append(r, 0x7f)
+		r = append(r, fill5b(32)...)
+	}
+	return r
+}
+
+// createFixed enumerates the interesting overlaps explicitly: the same offset is
+// a genuine JUMPDEST in one initcode and PUSH data in another, in both orders,
+// nested, and under a top-level creation; and a later initcode longer than an
+// earlier one.
+func createFixed() []*Prog {
+	var ps []*Prog
+	for _, mode := range []string{"", "create"} {
+		for j := 0; j <= 9; j++ {
+			for _, x := range []int{j + 1, j + 2, j + 9, j + 17, j + 32, j + 33, j + 34, j + 40, j + 66} {
+				n := 80
+				q := func() *initSpec { return &initSpec{region: fill5b(n), target: x, marker: 0x11} }           // x is a genuine JUMPDEST
+				pOK := func() *initSpec { return &initSpec{region: dataRegion(j, n), target: -1, marker: 0x22} } // x is push data; jumps to the pad
+				pBad := func() *initSpec { return &initSpec{region: dataRegion(j, n), target: x, marker: 0x33} } // jumps onto the push data
+				if dataRegion(j, n)[x] != 0x5b || x-j == 0 || (x-j)%33 == 0 {
+					continue // x must be a data byte of the PUSH32 units
+				}
+				var top *initSpec
+				if mode == "create" {
+					top = pOK()
+				}
+				ps = append(ps, createProg(top, []*initSpec{pOK(), q()}, mode, "return"))
+				ps = append(ps, createProg(top, []*initSpec{q(), pBad()}, mode, "return"))
+				ps = append(ps, createProg(top, []*initSpec{q(), pBad(), q(), pOK()}, mode, "return"))
+				// nested, parent jumps first / child created first
+				for _, cf := range []bool{false, true} {
+					par := pOK()
+					par.child, par.childFirst = q(), cf
+					ps = append(ps, createProg(top, []*initSpec{par}, mode, "return"))
+					par2 := q()
+					par2.child, par2.childFirst = pBad(), cf
+					ps = append(ps, createProg(top, []*initSpec{par2, q()}, mode, "return"))
+				}
+				if mode == "create" { // the top-level initcode's own region against an inner one
+					ps = append(ps, createProg(pOK(), []*initSpec{q()}, mode, "return"))
+					ps = append(ps, createProg(q(), []*initSpec{pBad()}, mode, "return"))
+					ps = append(ps, createProg(q(), []*initSpec{pBad()}, mode, "revert"))
+				}
+			}
+		}
+		// a later initcode much longer than the first one
+		for _, short := range []int{1, 8, 30} {
+			for _, long := range []int{100, 300, 2000} {
+				for _, x := range []int{long - 1, long / 2, short + 45} {
+					var top *initSpec
+					if mode == "create" {
+						top = &initSpec{region: fill5b(short), target: 0}
+					}
+					ps = append(ps, createProg(top, []*initSpec{{region: fill5b(short), target: 0, marker: 1}, {region: fill5b(long), target: x, marker: 2}}, mode, "return"))
+					ps = append(ps, createProg(top, []*initSpec{{region: fill5b(short), target: 0, marker: 1}, {region: dataRegion(3, long), target: x, marker: 2}}, mode, "return"))
+				}
+			}
+		}
+	}
+	return ps
+}
+
+func genCreate(rng *rand.Rand) *Prog {
+	mode := ""
+	if rng.Intn(3) == 0 {
+		mode = "create"
+	}
+	var top *initSpec
+	if mode == "create" || rng.Intn(3) == 0 {
+		top = &initSpec{region: genRegion(rng, 4+rng.Intn(60))}
+		top.target = pickTarget(rng, top.region)
+		if rng.Intn(3) != 0 { // mostly a valid jump, so that the creations below are reached
+			top.target = -1
+		}
+	}
+	k := 2 + rng.Intn(3)
+	var inits []*initSpec
+	for i := 0; i < k; i++ {
+		inits = append(inits, genInit(rng, 1))
+	}
+	tail := "return"
+	if rng.Intn(10) == 0 {
+		tail = "revert"
+	}
+	return createProg(top, inits, mode, tail)
+}
+
+// ---------------------------------------------------------------------------
+
+func families(r *mon.Run, cfgName string, ft feat, defined [256]bool) []family {
 	var fams []family
 	scale := 1
 	if cfgName != "default" {
@@ -1019,6 +1390,15 @@ func families(r *mon.Run, cfgName string, ft feat) []family {
 		st := stackCases(ft)
 		fams = append(fams, family{"stack", len(st), func(i int) *Prog { return st[i] }})
 	}
+	ec := edgeCases(defined)
+	fams = append(fams, family{"edge", len(ec), func(i int) *Prog { return ec[i] }})
+	cf := createFixed()
+	fams = append(fams, family{"create", len(cf) + r.Pick(60000, 2500000)/scale, func(i int) *Prog {
+		if i < len(cf) {
+			return cf[i]
+		}
+		return genCreate(rnd("create", i))
+	}})
 	mc := memCases(ft)
 	fams = append(fams, family{"mem", len(mc), func(i int) *Prog { return mc[i].prog() }})
 	tc := termCases(ft)
